@@ -125,7 +125,7 @@ def gen_dag(r, n, gid=None, reject_w=8, merge_w=18, fin_w=3, deep_w=20, nkeys=4)
                 return x
     gid = gid or fresh()
     used.add(gid)
-    d.add(Cmd(gid, "i", (), 1, rand_prog(r, 0, nkeys)))
+    d.add(Cmd(gid, "i", (), 1, tuple(o for o in rand_prog(r, 0, nkeys) if o[0] != "Q")))
     tips = [gid]
     for _ in range(n):
         c = r.below(100)
@@ -487,8 +487,8 @@ def fixed_scenarios():
     # first-command shapes for a missing graph (C10)
     d = dag([(1, "i", (), 1, ()), (2, 1, (1,), 0, ()), (30, "i", (), 1, ()), (31, "i", (), 0, ()), (32, "i", (), 1, (("R",),))])
     out.append(("init-shapes", d, [("open", 0), ("add", 0, []), ("add", 0, [2]), ("add", 0, [30]), ("commit", 0),
-                                   ("flush", 0), ("action", False, None, []), ("add", 0, [1, 1, 30]), ("add", 0, [1, 2, 1]),
-                                   ("add", 0, [30]), ("commit", 0)]))
+                                   ("flush", 0), ("open", 0), ("flush", 0), ("action", False, None, []), ("add", 0, [1, 1, 30]),
+                                   ("add", 0, [1, 2, 1]), ("add", 0, [30]), ("add", 0, [1]), ("commit", 0)]))
     d31 = dag([(31, "i", (), 0, ()), (2, 1, (31,), 0, ())])
     out.append(("init-nopolicy", d31, [("open", 0), ("add", 0, [31, 2]), ("commit", 0)]))
     d32 = dag([(32, "i", (), 1, (("E", 5), ("R",))), (2, 1, (32,), 0, ())])
@@ -555,4 +555,102 @@ def make_cases(ctx, n_cases, size_lo, size_hi, hist_kw=None, dag_kw=None, prefix
         d = gen_dag(r, r.range(size_lo, size_hi), **(dag_kw or {}))
         ops = gen_history(r, d, ntx=r.choice([1, 2, 2, 3]), **(hist_kw or {}))
         cases.append(("%s%d" % (prefix, i), "libc" if i % 3 == 2 else "mem", gid_of(d), d, ops))
+    return cases
+
+
+# ---------------------------------------------------------------- replay of a recorded case (./check Cxx --replay file)
+def parse_prog(s):
+    if s == "-":
+        return ()
+    out = []
+    for o in s.split("."):
+        f = o.split(":")
+        out.append(tuple([f[0]] + [int(x) for x in f[1:]]))
+    return tuple(out)
+
+
+def parse_prio(s):
+    return s if s in ("m", "f", "i") else int(s[1:])
+
+
+def parse_case_text(txt):
+    """Inverse of case_text (one or more cases)."""
+    cases, cur = [], None
+    for line in txt.splitlines():
+        f = line.split()
+        if not f:
+            continue
+        if f[0] == "case":
+            cur = [f[1], f[2], int(f[3]), Dag(), []]
+        elif f[0] == "c":
+            par = () if f[3] == "-" else ((int(f[3][1:]),) if f[3][0] == "s" else tuple(int(x) for x in f[3][1:].split(",")))
+            cur[3].add(Cmd(int(f[1]), parse_prio(f[2]), par, int(f[4]), parse_prog(f[5])))
+        elif f[0] == "o":
+            k = f[1]
+            if k in ("open", "flush", "commit"):
+                cur[4].append((k, int(f[2])))
+            elif k == "add":
+                cur[4].append(("add", int(f[2]), [] if f[3] == "-" else [int(x) for x in f[3].split(",")]))
+            elif k == "action":
+                cmds = [] if f[4] == "-" else [(int(c.split(":", 2)[0]), parse_prio(c.split(":", 2)[1]), parse_prog(c.split(":", 2)[2]))
+                                               for c in f[4].split(",")]
+                cur[4].append(("action", f[2] == "d", None if f[3] == "-" else int(f[3]), cmds))
+            elif k == "probe":
+                cur[4].append(("probe", int(f[2]), int(f[3])))
+            elif k == "sess":
+                cur[4].append(("sess",))
+        elif f[0] == "end":
+            cases.append(tuple(cur))
+    return cases
+
+
+def replay_cases(ctx):
+    """The cases recorded in the replay file given with --replay (None if not in replay mode)."""
+    if not ctx.replay_in:
+        return None
+    import json
+    obj = json.load(open(ctx.replay_in))
+    txts = [obj[k]["case_text"] if isinstance(obj.get(k), dict) else None for k in ("history_a", "history_b")]
+    txt = obj.get("case_text") or "".join(t for t in txts if t)
+    return parse_case_text(txt) if txt else None
+
+
+# ---------------------------------------------------------------- exhaustive small scope (thorough tier)
+def small_dag():
+    """init -> a, b ; c child of a ; m = merge(b, c) ; e child of m ; x (rejected) child of a."""
+    d = Dag()
+    d.add(Cmd(1, "i", (), 1, (("S", 0, 1),)))
+    d.add(Cmd(20, 1, (1,), 0, (("A", 0, 20), ("E", 20))))
+    d.add(Cmd(10, 1, (1,), 0, (("A", 0, 10),)))
+    d.add(Cmd(30, 0, (20,), 0, (("A", 0, 30), ("C", 0, 1))))
+    m = merge_id(10, 30)
+    d.add(Cmd(m, "m", (10, 30), 0, ()))
+    d.add(Cmd(40, 2, (m,), 0, (("A", 0, 40),)))
+    return d, [20, 10, 30, m, 40]
+
+
+def permutations(xs):
+    if len(xs) <= 1:
+        yield list(xs)
+        return
+    for i in range(len(xs)):
+        for p in permutations(xs[:i] + xs[i + 1:]):
+            yield [xs[i]] + p
+
+
+def exhaustive_small_cases(flush=False):
+    """Every delivery order of the five non-init commands (one Add each, out-of-order ones fail with NoSuchParent),
+    then the causal order once more, then commit: 120 histories that must all end in the same state."""
+    d, ids = small_dag()
+    cases = []
+    for k, perm in enumerate(permutations(ids)):
+        ops = [("open", 0), ("add", 0, [1])]
+        for x in perm:
+            ops.append(("add", 0, [x]))
+            if flush:
+                ops.append(("flush", 0))
+        for x in ids:
+            ops.append(("add", 0, [x]))
+        ops.append(("commit", 0))
+        cases.append(("perm%s%d" % ("f" if flush else "", k), "mem" if k % 2 else "libc", 1, d, ops))
     return cases
